@@ -118,7 +118,7 @@ func writeStream(c *Ctx, cfg wcfg, input []byte, del int, g *prng.Rng) writeResu
 		}
 		switch del {
 		case delSingle:
-			n, err := w.Write(input)
+			n, err := writeRecycled(w, input)
 			res.calls = append(res.calls, fmt.Sprintf("Write(%d)", len(input)))
 			if err != nil || n != len(input) {
 				res.failed, res.err = "Write", fmt.Errorf("n=%d err=%v", n, err)
@@ -127,7 +127,7 @@ func writeStream(c *Ctx, cfg wcfg, input []byte, del int, g *prng.Rng) writeResu
 		case delPartition, delFlush:
 			p := 0
 			for _, k := range parts {
-				n, err := w.Write(input[p : p+k])
+				n, err := writeRecycled(w, input[p:p+k])
 				res.calls = append(res.calls, fmt.Sprintf("Write(%d)", k))
 				if err != nil || n != k {
 					res.failed, res.err = "Write", fmt.Errorf("n=%d err=%v", n, err)
@@ -260,3 +260,15 @@ func readStream(c *Ctx, frame []byte, conc int, mode int, blockMax int, g *prng.
 }
 
 var errNoProgress = errors.New("harness: Read returned (0, nil) 1000 times in a row")
+
+// writeRecycled passes a private copy of data to Write and overwrites that copy
+// as soon as Write has returned, the way a caller that recycles its buffer does
+// (io.Writer: "Write must not retain p").
+func writeRecycled(w io.Writer, data []byte) (int, error) {
+	tmp := append([]byte(nil), data...)
+	n, err := w.Write(tmp)
+	for i := range tmp {
+		tmp[i] = 0xC7
+	}
+	return n, err
+}
